@@ -129,3 +129,97 @@ Definition generate_inner (g : generator) : list row -> list draw -> result (lis
   | GPairwise ctrl subset anchor => pairwise ctrl subset anchor
   end.
 Definition generate_plates (g : generator) := wrap (generate_inner g).
+
+(* ---- vocabulary of the source translation of PairwisePlateGenerator._generate_plates (harness/src_functions.py,
+   configuration C13_PAIRWISE -> Generated/SrcRetroGen.v).  One definition per primitive.  Treatment ids of a screen made by
+   to_screen() are `nat` (ranks of its non-control keys, [row_ids] of its own [build_tmapping]); group ids and sample ids are
+   ints; the dict group_lookup has int keys (ids as Z.of_nat, and the sentinel). ---- *)
+(* s.treatment_ids for a screen s built by to_screen() (re-encoded), one row of ids per experiment *)
+Definition screen_ids (ctrl : name) (s : screen_t) : list (list nat) :=
+  map (row_ids (build_tmapping ctrl (concat (map r_treats s)))) s.
+(* np.unique(s.treatment_ids, return_counts=True): the sorted distinct ids, and how often each occurs *)
+Definition unique_ids (ctrl : name) (s : screen_t) : list nat := sort_uniq Nat.compare (concat (screen_ids ctrl s)).
+Definition id_counts (ctrl : name) (s : screen_t) : list nat :=
+  map (fun u => length (filter (Nat.eqb u) (concat (screen_ids ctrl s)))) (unique_ids ctrl s).
+(* screen.treatment_ids == CONTROL_SENTINEL_VALUE, row by row: which treatment entries are controls *)
+Definition control_entries (ctrl : name) (s : screen_t) : list bvec := map (fun r => map (is_control ctrl) (r_treats r)) s.
+(* np.any(m, axis=1) *)
+Definition any_in_rows (m : list bvec) : bvec := map (existsb (fun b => b)) m.
+(* np.argsort(-counts): the recorded answer (positions; the order among equal counts is implementation-defined) *)
+Definition argsort_desc (counts : list nat) (ds : list draw) : result (list nat * list draw) := take_ints ds.
+(* a[:n] *)
+Definition slice_to {A} (a : list A) (n : Z) : list A :=
+  if (n <? 0)%Z then firstn (length a - Z.to_nat (- n)) a else firstn (Z.to_nat n) a.
+(* u[idx], idx an array of positions: IndexError (tag 92) for a position outside u *)
+Definition take_at (u : list nat) (idx : list nat) : result (list nat) :=
+  res_map_all (fun i => match nth_error u i with Some x => Ok x | None => Err 92%Z end) idx.
+(* len(a) // b: ZeroDivisionError (tag 3) for b = 0 *)
+Definition floor_div (a b : Z) : result Z := if (b =? 0)%Z then Err 3%Z else Ok (a / b)%Z.
+(* np.setdiff1d(a, b), a sorted and duplicate-free (an np.unique result) *)
+Definition setdiff_sorted (a b : list nat) : list nat := filter (fun u => negb (memb u b)) a.
+(* d.get(k) on a dict with int keys: None when the key is absent *)
+Fixpoint dict_find (d : list (Z * Z)) (k : Z) : option Z :=
+  match d with [] => None | (k', v) :: r => if (k' =? k)%Z then Some v else dict_find r k end.
+(* np.vectorize(d.get)(ids) *)
+Definition lookup_all (d : list (Z * Z)) (ids : list (list nat)) : list (list (option Z)) :=
+  map (map (fun i => dict_find d (Z.of_nat i))) ids.
+(* np.sum(g == CONTROL_SENTINEL_VALUE) *)
+Definition is_sentinel (o : option Z) : bool := match o with Some v => (v =? Generated.Consts.CONTROL_SENTINEL_VALUE)%Z | None => false end.
+Definition count_sentinel (g : list (list (option Z))) : Z := Z.of_nat (length (filter is_sentinel (concat g))).
+(* rng.choice(range(n), size=k, replace=True): the recorded answer; refused (tag 91) unless it has k entries *)
+Definition choice_range (n k : Z) (ds : list draw) : result (list nat * list draw) :=
+  dor d <- take_ints ds;
+  let '(l, ds') := d in
+  if negb (Z.of_nat (length l) =? k)%Z then Err 91%Z else Ok (l, ds').
+(* g[g == CONTROL_SENTINEL_VALUE] = vals: the sentinel entries, in row-major order, take the values in turn;
+   ValueError (tag 91) unless there are as many values as sentinel entries *)
+Fixpoint fill_row (row : list (option Z)) (vals : list nat) : list (option Z) * list nat :=
+  match row with
+  | [] => ([], vals)
+  | o :: r =>
+      if is_sentinel o then
+        match vals with
+        | v :: vals' => let '(r', rest) := fill_row r vals' in (Some (Z.of_nat v) :: r', rest)
+        | [] => let '(r', rest) := fill_row r [] in (o :: r', rest)
+        end
+      else let '(r', rest) := fill_row r vals in (o :: r', rest)
+  end.
+Fixpoint fill_rows (g : list (list (option Z))) (vals : list nat) : list (list (option Z)) :=
+  match g with
+  | [] => []
+  | row :: g' => let '(row', rest) := fill_row row vals in row' :: fill_rows g' rest
+  end.
+Definition store_at_sentinel (g : list (list (option Z))) (vals : list nat) : result (list (list (option Z))) :=
+  if (count_sentinel g =? Z.of_nat (length vals))%Z then Ok (fill_rows g vals) else Err 91%Z.
+(* np.sort(g, axis=1): TypeError (tag 92) when an entry is None (an id without a group) *)
+Definition sort_rows (g : list (list (option Z))) : result (list (list Z)) :=
+  match opt_map_all (fun row => opt_map_all (fun o => o) row) g with
+  | Some m => Ok (map sort_z m)
+  | None => Err 92%Z
+  end.
+(* s.sample_ids[:, np.newaxis]: one 1-element row per experiment (ids = ranks of the sorted unique sample names of s) *)
+Definition sample_id_column (s : screen_t) : list (list Z) := map (fun r => [sample_id_z s (r_sample r)]) s.
+(* np.hstack([a, b]), a and b 2-d with the same number of rows *)
+Definition hstack2 (a b : list (list Z)) : list (list Z) := map (fun p => fst p ++ snd p) (combine a b).
+(* np.unique(a, axis=0): the sorted distinct rows (lexicographic) *)
+Definition unique_rows (a : list (list Z)) : list (list Z) := sort_uniq name_cmp a.
+(* (a == t).all(axis=1) *)
+Definition rows_equal (a : list (list Z)) (t : list Z) : bvec := map (fun x => name_eqb x t) a.
+(* names[m] = v, m a boolean mask, v one string: IndexError (tag 92) unless m has one entry per name *)
+Definition set_where (names : list name) (m : bvec) (v : name) : result (list name) :=
+  if length m =? length names then Ok (map (fun nb : name * bool => if snd nb then v else fst nb) (combine names m))
+  else Err 92%Z.
+(* names[m] = vals, vals an array: IndexError / ValueError (tag 92) unless m has one entry per name and vals one per true entry *)
+Definition store_where (names : list name) (m : bvec) (vals : list name) : result (list name) :=
+  if (length m =? length names) && (vcount m =? length vals) then Ok (assign_v m vals names) else Err 92%Z.
+(* rng.choice(a, size=n, replace=True), a an array of plate names: the recorded answer; refused unless it has n entries
+   (tag 91), all elements of a (tag 94: numpy answers from the array) *)
+Definition choice_names (a : list name) (n : Z) (ds : list draw) : result (list name * list draw) :=
+  dor d <- take_names ds;
+  let '(asg, ds') := d in
+  if negb (Z.of_nat (length asg) =? n)%Z then Err 91%Z
+  else if negb (forallb (fun x => name_mem x a) asg) then Err 94%Z
+  else Ok (asg, ds').
+(* np.unique(s.plate_names[s.sample_names == nm]) *)
+Definition plates_of_sample_named (s : screen_t) (nm : name) : list name :=
+  sort_uniq name_cmp (map r_plate (filter (in_sample nm) s)).
